@@ -205,6 +205,7 @@ type Engine struct {
 	implCache map[string][]types.Type
 	objElem   map[int]types.Type
 	nIter     int
+	localArr  map[int]bool // byte arrays that are local variables (mutable through slices)
 	elemAlias map[int]elemAliasT // objects reflected out of pointer-element arrays: writes go back to the array
 	inProgress map[string]bool
 }
@@ -228,7 +229,7 @@ type dynCon struct {
 }
 
 func NewEngine(prog *ssa.Program) *Engine {
-	return &Engine{prog: prog, declSet: map[string]bool{}, dtSet: map[string]string{}, dtFields: map[string][]dtField{}, dynSet: map[string]int{}, assumpt: map[string]bool{}, axiomSet: map[string]bool{}, implCache: map[string][]types.Type{}, objElem: map[int]types.Type{}, elemAlias: map[int]elemAliasT{}, inProgress: map[string]bool{}}
+	return &Engine{prog: prog, declSet: map[string]bool{}, dtSet: map[string]string{}, dtFields: map[string][]dtField{}, dynSet: map[string]int{}, assumpt: map[string]bool{}, axiomSet: map[string]bool{}, implCache: map[string][]types.Type{}, objElem: map[int]types.Type{}, elemAlias: map[int]elemAliasT{}, localArr: map[int]bool{}, inProgress: map[string]bool{}}
 }
 
 func (e *Engine) note(a string) { e.assumpt[a] = true }
@@ -298,6 +299,9 @@ func (e *Engine) sortOf(t types.Type) string {
 	}
 	if ts == tyAny {
 		return "Dyn"
+	}
+	if ts == tyBigInt {
+		return SInt
 	}
 	if isBytesLike(t) {
 		return SString
@@ -493,6 +497,25 @@ func (e *Engine) reify(st *State, v Val, t types.Type) T {
 		}
 		return e.reify(st, e.load(st, x), pt.Elem())
 	case *SliceV:
+		if so == SString {
+			// byte buffer: its current contents
+			if x.Back < 0 {
+				return T{S: `""`, So: SString}
+			}
+			switch cur := st.Heap[x.Back].(type) {
+			case T:
+				if x.Off.S == "0" {
+					return T{S: cur.S, So: SString}
+				}
+				return app(SString, "str.substr", cur, x.Off, x.Len)
+			case *ArrV:
+				s := byteArrString(cur)
+				if x.Off.S != "0" || x.Len.S != fmt.Sprint(len(cur.Elems)) {
+					s = app(SString, "str.substr", s, x.Off, x.Len)
+				}
+				return s
+			}
+		}
 		if x.Back < 0 {
 			return T{S: fmt.Sprintf("(mk_%s %s 0)", so, e.fresh("nilarr", "(Array Int "+e.elemSortOfSlice(so)+")").S), So: so}
 		}
